@@ -246,11 +246,15 @@ impl VersionGraph {
 
 		let mut versions = IndexMap::new();
 
-		for file in std::fs::read_dir(&dir)
+		// A file system lists a directory in an arbitrary order. Go through the files in the order of their
+		// names, so that the graph (node indices, the order of edges) and with it the choice between several
+		// equally short paths in `apply_diffs` are the same wherever the directory is stored.
+		let mut files = std::fs::read_dir(&dir)
 			.with_context(|| anyhow!("cannot read version graph from {:?}", dir.as_ref()))?
-		{
-			let file = file?;
+			.collect::<std::io::Result<Vec<_>>>()?;
+		files.sort_by_key(|file| file.file_name());
 
+		for file in files {
 			let path = file.path();
 
 			let file_name = file.file_name().into_string()
